@@ -95,6 +95,7 @@ from .. import util
 
 ID = "C19"
 LEVEL = "exploration"
+TECHNIQUE = "runtime monitoring: invariant monitors per stabilising operator (convexity bounds, monotone Heaviside, zone/ring bounds, plane-wave symbols of the filters) + bitwise work-buffer-garbage differential over call histories"
 TITLE = "Stabilising operators never amplify and leave admissible states fixed"
 RULE = (
     "Brinkmann: per (dim, precision, variant) random field/target/indicator classes (noise, big/small, "
